@@ -226,11 +226,6 @@ def fromResponse (q : Query) (r : Response) : Except Err Response :=
       (negativeTtl r))
   else .ok r
 
-structure CacheVal where
-  /-- `Ok(Message)` or the cached `NoRecordsFound` -/
-  val : Except Err Response
-  deriving Inhabited
-
 structure Pool where
   ips : List Ip
   zone : Name
@@ -243,13 +238,17 @@ structure St where
   nscache : List (Name × Pool)
   /-- every `(server address, query)` handed to the network, newest first -/
   log : List (Ip × Query)
+  /-- observation only (never read by the model): every call of `RecursorDnsHandle::lookup` as
+  `(zone of the pool asked, zone handed to the bailiwick filter, query)`, newest first -/
+  asked : List (Name × Name × Query)
   /-- number of `NameServerPool::lookup` calls -/
   lookups : Nat
   /-- the `cname_limit` counter of the current request -/
   cnames : Nat
   deriving Inhabited
 
-def St.empty : St := { rcache := [], nscache := [], log := [], lookups := 0, cnames := 0 }
+def St.empty : St :=
+  { rcache := [], nscache := [], log := [], asked := [], lookups := 0, cnames := 0 }
 
 /-- `PoolState::try_send` with `num_concurrent_reqs = 1`: servers in order; an unreachable server
 (`NetError::Io`) moves on to the next one, every other outcome (a response, or the error
@@ -317,6 +316,7 @@ def cacheErr (st : St) (q : Query) (e : Err) : St :=
 /-- `RecursorDnsHandle::lookup` -/
 def lookup (cfg : Config) (net : Net) (q : Query) (zone : Name) (pool : Pool) (st : St) :
     St × Except Err Response :=
+  let st := { st with asked := (pool.zone, zone, q) :: st.asked }
   match poolLookup cfg net pool q st with
   | (st, .error e) => (cacheErr st q e, .error e)
   | (st, .ok r) =>
@@ -441,33 +441,42 @@ inductive Step where
   /-- `return Err(e)` -/
   | fail (e : Err)
 
+/-- the NS query of one iteration: from the response cache, else asked of the current pool with the
+parent zone as bailiwick -/
+def nsQuery (cfg : Config) (net : Net) (zone : Name) (pool : Pool) (st : St) :
+    St × Except Err Response :=
+  match rcGet st.rcache ⟨zone, T_NS⟩ with
+  | some v => (st, v)
+  | none => lookup cfg net ⟨zone, T_NS⟩ (base zone) pool st
+
+/-- "get all the NS records and glue": builds the pool of `zone` from the NS response and stores it
+in the name-server cache -/
+def buildPool (cfg : Config) (net : Net) (rec : NsRec) (zone : Name) (depth : Nat) (pool : Pool)
+    (resp : Response) (st : St) : St × Pool :=
+  let glue := addGlue cfg.serverFilter [] resp.all
+  let cn := collectNs cfg.serverFilter st (base zone) resp.all glue [] []
+  let r : St × List Ip :=
+    if cn.1.isEmpty && !cn.2.isEmpty then appendIps cfg net rec zone depth pool cn.2 st
+    else (st, cn.1)
+  let newPool : Pool := { ips := r.2, zone := zone }
+  ({ r.1 with nscache := nsPut r.1.nscache zone newPool }, newPool)
+
 /-- one iteration of the `for i in 1..=num_labels` loop of `ns_pool_for_name` -/
 def nsStep (cfg : Config) (net : Net) (rec : NsRec) (zone : Name) (depth : Nat) (pool : Pool)
     (st : St) : St × Step :=
   match nsGet st.nscache zone with
   | some p => (st, .next depth p)
   | none =>
-    let depth := depth + 1
-    if !(depth < cfg.nsRecursionLimit) then (st, .fail .limit)
+    if !(depth + 1 < cfg.nsRecursionLimit) then (st, .fail .limit)
     else
-      let parent := base zone
-      let q : Query := ⟨zone, T_NS⟩
-      let (st, res) : St × Except Err Response := match rcGet st.rcache q with
-        | some v => (st, v)
-        | none => lookup cfg net q parent pool st
-      match res with
-      | .error e => if e.isNx then (st, .fail e) else (st, .next depth pool)
-      | .ok resp =>
-        if !(resp.all.any fun r => r.rtype == T_NS && r.name.eq zone) then (st, .next depth pool)
+      match nsQuery cfg net zone pool st with
+      | (st, .error e) => if e.isNx then (st, .fail e) else (st, .next (depth + 1) pool)
+      | (st, .ok resp) =>
+        if !(resp.all.any fun r => r.rtype == T_NS && r.name.eq zone) then
+          (st, .next (depth + 1) pool)
         else
-          let glue := addGlue cfg.serverFilter [] resp.all
-          let (config, need) := collectNs cfg.serverFilter st parent resp.all glue [] []
-          let (st, config) :=
-            if config.isEmpty && !need.isEmpty then
-              appendIps cfg net rec zone depth pool need st
-            else (st, config)
-          let newPool : Pool := { ips := config, zone := zone }
-          ({ st with nscache := nsPut st.nscache zone newPool }, .next depth newPool)
+          match buildPool cfg net rec zone (depth + 1) pool resp st with
+          | (st, p) => (st, .next (depth + 1) p)
 
 def nsLoop (cfg : Config) (net : Net) (rec : NsRec) :
     List Name → Nat → Pool → St → St × Except Err (Nat × Pool)
@@ -530,6 +539,14 @@ def resolveCnames (cfg : Config) (rec : ResRec) (resp : Response) (q : Query) (d
       | (st, .error e) => (st, .error e)
       | (st, .ok chain) => (st, .ok { resp with answers := resp.answers ++ chain })
 
+/-- `filtered_cache_lookup`, else `lookup` with the zone of the pool as bailiwick -/
+def answerQuery (cfg : Config) (net : Net) (q : Query) (pool : Pool) (st : St) :
+    St × Except Err Response :=
+  match rcGet st.rcache q with
+  | some (.error e) => (st, .error e)
+  | some (.ok r) => if r.aa then (st, .ok r) else lookup cfg net q pool.zone pool st
+  | none => lookup cfg net q pool.zone pool st
+
 /-- `RecursorDnsHandle::resolve` after the first cache probe missed -/
 def resolveMiss (cfg : Config) (net : Net) (rec : ResRec) (q : Query) (depth : Nat) (st : St) :
     St × Except Err Response :=
@@ -537,14 +554,9 @@ def resolveMiss (cfg : Config) (net : Net) (rec : ResRec) (q : Query) (depth : N
   match nsPoolForName cfg net zone depth st with
   | (st, .error e) => if e.isNx then (st, .error e) else (st, .error .other)
   | (st, .ok (depth, pool)) =>
-    let zone := pool.zone
-    let (st, res) : St × Except Err Response := match rcGet st.rcache q with
-      | some (.error e) => (st, .error e)
-      | some (.ok r) => if r.aa then (st, .ok r) else lookup cfg net q zone pool st
-      | none => lookup cfg net q zone pool st
-    match res with
-    | .error e => (st, .error e)
-    | .ok resp => resolveCnames cfg rec resp q depth st
+    match answerQuery cfg net q pool st with
+    | (st, .error e) => (st, .error e)
+    | (st, .ok resp) => resolveCnames cfg rec resp q depth st
 
 /-- `RecursorDnsHandle::resolve`; the fuel stands for the nesting of `resolve_cnames → resolve`,
 which the depth counter bounds by `recursion_limit` -/
